@@ -3126,8 +3126,8 @@ MODULES = {
                         ("AutomatonBuilder", None, "build_unchecked")],
     },
     "AutomatonGen": {
-        "files": ["automata.rs", "character_sets.rs", "smt_strings.rs"],
-        "types": ["CharSet", "ClassId", "CharPartition", "SmtString", "State", "Automaton", "StateMapping",
+        "files": ["automata.rs", "character_sets.rs", "smt_strings.rs", "errors.rs"],
+        "types": ["CharSet", "CoverResult", "ClassId", "Error", "CharPartition", "SmtString", "State", "Automaton", "StateMapping",
                   "EdgeIterator", "FinalStateIterator"],
         "consts": ["MAX_CHAR"],
         "functions": [("CharSet", None, "contains"), ("CharSet", None, "is_before")]
@@ -3138,7 +3138,11 @@ MODULES = {
                      + [("Automaton", None, f) for f in ("initial_state", "state", "num_states", "num_final_states", "default_successor",
                                                          "class_next", "next", "str_next", "accepts", "edges", "final_states")]
                      + [("StateMapping", None, f) for f in ("from_array", "num_new_states", "is_class_rep")]
-                     + [("EdgeIterator", "Iterator", "next"), ("FinalStateIterator", "Iterator", "next")],
+                     + [("EdgeIterator", "Iterator", "next"), ("FinalStateIterator", "Iterator", "next")]
+                     # appended later (the generated names of the functions above must not shift)
+                     + [("CharPartition", None, f) for f in ("new", "push", "get", "start", "end", "interval_cover", "class_of_set")]
+                     + [(None, None, "merge_partitions"), (None, None, "merge_partition_list")]
+                     + [("Automaton", None, f) for f in ("char_set_next", "states", "combined_char_partition")],
     },
     "RegexNodeGen": {
         "files": ["regular_expressions.rs", "character_sets.rs", "loop_ranges.rs", "smt_strings.rs", "errors.rs"],
